@@ -263,8 +263,15 @@ def check_ans_exhaustion_sees_head(ctx, F):
     isem = c08.get_body(F, [ANS + '::<', '::is_empty'], 'is_empty')
     st = ('in', (1, 'deref', ('f', 'state')))
 
-    def implies_empty(t):
+    def implies_empty(t, v=True):
         t = peel(t)
+        while isinstance(t, tuple) and t and (t[0] == 'not' or (t[0] == 'un' and t[1] == 'Not')):
+            t, v = peel(t[1] if t[0] == 'not' else t[2]), not v
+        if isinstance(t, tuple) and t and t[0] == 'bin' and t[1].split('.')[0] == 'Ne' and st in (t[2], t[3]) and not v:
+            other = t[3] if t[2] == st else t[2]
+            return pow2._is_zero(peel(other)) or sym.show(peel(other)) in ('zero()', '0')
+        if not v:
+            return False
         if isinstance(t, tuple) and t and t[0] == 'call' and isem is not None and t[1] == isem.defpath:
             return True
         if isinstance(t, tuple) and t and t[0] == 'bin' and t[1].split('.')[0] == 'Eq' and st in (t[2], t[3]):
@@ -286,11 +293,11 @@ def check_ans_exhaustion_sees_head(ctx, F):
                 val = t[1]
                 if not val:
                     continue
-                if any(v and implies_empty(p) for p, v, _ in r.preds):
+                if any((not isinstance(v, tuple)) and implies_empty(p, bool(v)) for p, v, _ in r.preds):
                     continue
                 verdict, why = 'bad', 'a path answers `true` without having tested the head'
-            elif implies_empty(t):
-                continue
+            elif implies_empty(t) or any((not isinstance(v, tuple)) and implies_empty(p, bool(v)) for p, v, _ in r.preds):
+                continue      # the answer itself, or the path it is given on, implies an empty head
             elif not sym.contains(t, lambda x: x == st or (isinstance(x, tuple) and x and x[0] == 'call' and isem is not None and x[1] == isem.defpath)) \
                     and not any(sym.contains(p, lambda x: x == st) for p, v, _ in r.preds):
                 verdict, why = 'bad', 'the answer is %s: it does not look at the head, which holds the last one or more words of the stream after the backend has run empty, so a decoder with whole words left claims that it may be exhausted' % sym.show(t)[:80]
@@ -725,13 +732,21 @@ def check_diagnostic_directions(ctx, F):
             return out
         verdict = None
         n_sum = 0
+        all_w, all_logs = set(), set()
         for cb in F.closures_of(b):
             _, cp = rules.evaluate(cb)
-            for r in cp or []:
-                t = r.ret
-                if r.end != 'return' or t is None or not (t[0] == 'bin' and t[1].split('.')[0] == 'Mul'):
+            def parts(t):
+                # a summand may itself be a sum/difference of products: w*log a - w*log b
+                if isinstance(t, tuple) and t and t[0] == 'bin' and t[1].split('.')[0] in ('Add', 'Sub'):
+                    return parts(t[2]) + parts(t[3])
+                if isinstance(t, tuple) and t and t[0] == 'un' and t[1] == 'Neg':
+                    return parts(t[2])
+                return [t]
+            has_log = lambda y: sym.contains(y, lambda z: isinstance(z, tuple) and z and z[0] == 'call' and str(z[1]).endswith('::log2'))
+            prods = [t for r in cp or [] if r.end == 'return' and r.ret is not None for t in parts(r.ret)]
+            for t in prods:
+                if not (isinstance(t, tuple) and t and t[0] == 'bin' and t[1].split('.')[0] == 'Mul'):
                     continue
-                has_log = lambda y: sym.contains(y, lambda z: isinstance(z, tuple) and z and z[0] == 'call' and str(z[1]).endswith('::log2'))
                 fa, fb = t[2], t[3]
                 if has_log(fa) == has_log(fb):
                     continue
@@ -742,8 +757,11 @@ def check_diagnostic_directions(ctx, F):
                 for z in sym.subterms(logp):
                     if isinstance(z, tuple) and z and z[0] == 'call' and str(z[1]).endswith('::log2'):
                         logs |= who(z[2][0])
-                if w != {want_w} or logs != want_logs:
-                    verdict = 'the summand weights by %s and takes the logarithm of %s' % (sorted(w), sorted(logs))
+                all_w |= w
+                all_logs |= logs
+                # a sum may be split (sum w*log a - sum w*log b): every part carries the right weight, the parts together the right logarithms
+                if w != {want_w} or not logs <= want_logs:
+                    verdict = 'a summand weights by %s and takes the logarithm of %s' % (sorted(w), sorted(logs))
         if n_sum == 0:
             # defined through siblings?
             _, paths = rules.evaluate(b)
@@ -762,6 +780,8 @@ def check_diagnostic_directions(ctx, F):
             else:
                 ctx.ok('R4', role, b.defpath, 'defined through %s (same direction)' % ', '.join(sorted(used)), key=key)
             continue
+        if not verdict and all_logs != want_logs:
+            verdict = 'the summands together take the logarithm of %s only' % sorted(all_logs)
         if verdict:
             ctx.bad('R4', role, b.defpath, verdict, key=key, loc=rules.loc(b))
         else:
